@@ -259,6 +259,16 @@ class Oracle:
         roots = {r: q for r, q in roots.items() if q != 0}
         return lo, hi, roots
 
+    def without_dimensionless(self, unit, declared_dimension):
+        """(prefix, factors) of `unit` with every non-One base factor of declared
+        dimension Number removed"""
+        class _U:  # minimal stand-in with the two fields unit_size reads
+            pass
+        u = _U()
+        u.prefix = unit.prefix
+        u.factors = {f: e for f, e in unit.factors.items() if f is self.One or any(declared_dimension(f).exponents)}
+        return u
+
     def ratio(self, src, dst):
         """size(src)/size(dst) as an interval (lo, hi), or None when the declarations do
         not connect the two units."""
